@@ -213,7 +213,8 @@ def run_verus(unit, scratch):
     r['assumptions'] = ['[%s] %s' % (r['unit'], a) for a in verus_unit.scan_assumptions(r['file'])]
     m = r['meta']
     r['extraction'] = dict(unit=r['unit'], sha256=m['sha256'], rewrites=m['rewrites'], contracts_sha256=m['contracts_sha256'],
-                           verus_verified=r['verus_verified'], verus_errors=r['verus_errors'], wall_s=round(r['wall_s'], 2))
+                           verus_verified=r['verus_verified'], verus_errors=r['verus_errors'], wall_s=round(r['wall_s'], 2),
+                           verifier_queries=r.get('queries'), answered_from_memo=r.get('cache_hits'))
     # contract text of each contracted function, for the evidence samples
     contracts = verus_unit_contract_texts(r['file'], m)
     for o in r['obligations']:
